@@ -15,9 +15,9 @@ EXTENDS ForkDetectorOps, TLC
 
 CONSTANTS Kinds, Universes, RoundVals, RollNonces, MaxList, NotaLists, MaxGroups, Log(_, _)
 
-VARIABLES sA, sB, groups, hist
-vars  == <<sA, sB, groups, hist>>
-cvars == <<sA, sB, groups>>
+VARIABLES sA, sB, groups, asym, hist
+vars  == <<sA, sB, groups, asym, hist>>
+cvars == <<sA, sB, groups, asym>>     \* asym: some group member was accepted in one arrival order and rejected in the other
 
 One == INSTANCE ForkDetector WITH s <- sA      \* for Acts (the set of possible calls)
 
@@ -36,6 +36,11 @@ GroupActs(st) ==
 
 RECURSIVE RecvAll(_, _)
 RecvAll(st, l) == IF l = <<>> THEN st ELSE RecvAll(AddHeader(st, Head(l), "recv", <<>>).s, Tail(l))
+\* the AddHeader results of the members of a group delivered in order l: set of <<hash, error>>
+RECURSIVE RecvErrs(_, _)
+RecvErrs(st, l) ==
+    IF l = <<>> THEN {}
+    ELSE LET r == AddHeader(st, Head(l), "recv", <<>>) IN {<<Head(l), r.out.err>>} \cup RecvErrs(r.s, Tail(l))
 
 SameSet(p, q) == {p[i] : i \in 1..Len(p)} = {q[i] : i \in 1..Len(q)}
 Ascending(p) == \A i \in 1..(Len(p) - 1) : p[i] < p[i + 1]
@@ -44,7 +49,7 @@ Rec(act, outA, outB, a, b) ==
     [a |-> act.a, in |-> act, out |-> [A |-> outA, B |-> outB], st |-> [A |-> Proj(a), B |-> Proj(b)]]
 
 Init ==
-    /\ groups = 0
+    /\ groups = 0 /\ asym = FALSE
     /\ \E k \in Kinds, U \in Universes, r \in {x \in RoundVals : x <= 2} :
           /\ sA = NewState(k, U, r) /\ sB = NewState(k, U, r)
           /\ hist = <<[a |-> "New", in |-> [kind |-> k, round |-> r, U |-> [h \in DOMAIN U |-> U[h]]],
@@ -54,13 +59,14 @@ Init ==
 \* the same call on both copies
 Lock(act) ==
     LET ra == Step(sA, act) rb == Step(sB, act) IN
-    /\ sA' = ra.s /\ sB' = rb.s /\ UNCHANGED groups
+    /\ sA' = ra.s /\ sB' = rb.s /\ UNCHANGED <<groups, asym>>
     /\ hist' = Log(hist, Rec(act, ra.out, rb.out, ra.s, rb.s))
 
 \* a group of competing headers: order oa on A, order ob on B
 Group(act) ==
     /\ groups < MaxGroups
     /\ groups' = groups + 1
+    /\ asym' = (asym \/ RecvErrs(sA, act.oa) # RecvErrs(sB, act.ob))
     /\ LET a == RecvAll(sA, act.oa) b == RecvAll(sB, act.ob) IN
           /\ sA' = a /\ sB' = b
           /\ hist' = Log(hist, Rec(act, [x |-> 0], [x |-> 0], a, b))
@@ -72,10 +78,18 @@ Next ==
 Spec == Init /\ [][Next]_vars
 
 -----------------------------------------------------------------------------
-Answer(st) == LET r == CheckFork(st).out IN [det |-> r.det, nonce |-> r.nonce, h |-> r.h]
+\* the fork selected (nonce, hash), if any; the "consensus stuck" answer (Nonce = MaxUint64) selects nothing
+Answer(st) == LET r == CheckFork(st).out IN
+              IF r.det /\ r.nonce < Inf THEN [sel |-> TRUE, nonce |-> r.nonce, h |-> r.h]
+              ELSE [sel |-> FALSE, nonce |-> Inf, h |-> 0]
 
 \* C20b: same (detected, nonce, hash) whatever the arrival order of competing headers was
 Inv_C20b == Answer(sA) = Answer(sB)
+\* Named deviation of the code as it is ("black-list-order"): checkBlockBasicValidity black-lists a header with a wrong
+\* time stamp and rejects every header whose PrevHash is black-listed, so a competitor whose parent is another (invalid)
+\* member of the group is stored only when it arrives BEFORE that parent.  Inv_C20b fails on universes that contain
+\* such a pair (MCUniversesDefect); everything else is order independent:
+Inv_C20b_ModuloBlackList == asym \/ Answer(sA) = Answer(sB)
 \* and finality does not depend on it either
 Inv_TwinFinal == sA.final = sB.final /\ sA.probable = sB.probable
 \* C20a on both copies
